@@ -32,11 +32,13 @@ def generate(seed, tier):
         # work to the task handler on its own, traced, thread (register / unregister) - the hand-over of the snapshot
         # taken there runs into the hand-over it interrupts
         return {"arm": "own-code", "line_pick": r.randrange(1000), "n": r.choice((1, 2, 3)),
+                "where": r.choice(("agent", "stdlib")),
                 "knobs": dict(common.draw_knobs(r, stall_p=0.0), trace_self=True)}
     if r.random() < 0.05:
         # arm "lives": the whole agent, started and shut down two or three times; in every life the application hits a
         # snapshot tracepoint - what is handed over in any life is sent exactly once, in that life
         return {"arm": "lives", "lives": r.choice((2, 2, 3)), "hits": [r.choice((1, 2, 3)) for _ in range(3)],
+                "hit_during_start": r.random() < 0.5,
                 "knobs": dict(common.draw_knobs(r, stall_p=0.0), trace_self=False)}
     nthreads = r.choice((1, 1, 2, 3))
     sid = 0
@@ -126,9 +128,13 @@ def _own_code(s, ch):
         body = [first + i for i, ln in enumerate(src) if ln.strip() and not ln.strip().startswith(("#", '"""', ":", "def "))
                 and i > 8]
         line = body[s["line_pick"] % len(body)]
-        info["line"] = line
+        tp_file = os.path.basename(dt.__file__)
+        if s.get("where") == "stdlib":
+            # ... or in the code of the standard library that the hand-over calls with its lock held (thread.py)
+            tp_file, line = "thread.py", 3
+        info["line"] = (tp_file, line)
         args = {"fire_count": "-1", "fire_period": "0"}
-        w.service.set_config([w.service.make_tp("tpOWN", os.path.basename(dt.__file__), line, args, [])], "h1")
+        w.service.set_config([w.service.make_tp("tpOWN", tp_file, line, args, [])], "h1")
         w.deep.poll.poll()
         common.wait_until(k, lambda: len(w.handler._tp_config) > 0, 60)
         done = []
@@ -177,6 +183,15 @@ def _lives(s, ch):
         for life in range(s["lives"]):
             if life:
                 k.fault("restart")
+                if s.get("hit_during_start"):
+                    # an application thread reaches the tracepoint while the new life's channel is being created
+                    def early():
+                        w.service.on_channel = None
+                        k.fault("hit_while_starting")
+                        te = shims.SimThread(target=lambda: g["work"](99), name="early%d" % life)
+                        te.start()
+                        te.join()
+                    w.service.on_channel = early
             w.start()
             common.wait_until(k, lambda: len(w.handler._tp_config) > 0, 60)
             n0, r0 = len(w.pushed), len(w.service.snapshots)
@@ -192,7 +207,8 @@ def _lives(s, ch):
             pushed = [format(es.id, "032x") for (_, _, es) in w.pushed[n0:]]
             got = [sn.ID.hex() for (_, _, sn, _) in w.service.snapshots[r0:]]
             info["n"] += len(pushed)
-            if len(pushed) != s["hits"][life]:
+            early_n = len([1 for (_, th, _) in w.pushed[n0:] if th.startswith("early")])
+            if len(pushed) - early_n != s["hits"][life]:
                 viol.append(V("lives:not-handed-over", "life %d: %d hits, %d snapshots handed over" % (life + 1, s["hits"][life], len(pushed))))
             for sid in pushed:
                 if got.count(sid) != 1:
